@@ -130,6 +130,17 @@ func TestC06Rapid(t *testing.T) {
 				hookSeq[ex.Str]++
 				c.Class("deposit-with-reentrant-delivery-hook")
 			}
+			if data == nil && rapid.IntRange(0, 5).Draw(rt, "nestedNext") == 0 {
+				// the hook (signed by an executor) relays the deposit after this one and then fails: the whole hook
+				// is rolled back, so neither state nor events may show the inner relay
+				ex := tc.executors[rapid.IntRange(0, len(tc.executors)-1).Draw(rt, "hookexec2")]
+				num, _ := accInfo(tc.l2, ex)
+				inner := opchildtypes.NewMsgFinalizeTokenDeposit(ex.Str, from.Str, tc.users[0].Str, sdk.NewCoin(tcL2Denom(tc, denom), math.NewInt(5)), uint64(len(pend)+2), uint64(tc.l1.Ctx.BlockHeight()), denom, nil)
+				failing := banktypes.NewMsgSend(ex.Addr, tc.users[0].Addr, sdk.NewCoins(sdk.NewCoin("stake", math.NewInt(1<<50))))
+				data = signTx(tc.l2, []sdk.Msg{inner, failing}, []cryptotypes.PrivKey{ex.Priv}, []uint64{num}, []uint64{hookSeq[ex.Str]}, henv.L2ChainID)
+				hookSeq[ex.Str]++
+				c.Class("deposit-whose-hook-relays-the-next-sequence-and-fails")
+			}
 			_, p := tc.l1Deposit(from, to, coinOf(denom, amt), data)
 			if p == nil {
 				rt.Fatalf("setup: L1 deposit rejected")
